@@ -3731,13 +3731,17 @@ class AllConnGraph(nx.DiGraph):
         msg = ''
         try:
             if indices_list:
-                chain = [arr]
+                # Compose the chain of indices into positions in the original array.  (Writing the
+                # intermediate subarrays back level by level would let an unmodified duplicate of
+                # an entry overwrite the entry that was set.)
+                positions = np.arange(arr.size).reshape(arr.shape)
                 for idx in indices_list:
-                    chain.append(idx.indexed_val(chain[-1]))
+                    positions = idx.indexed_val(positions)
 
-                if np.shape(val) != () and np.squeeze(val).shape != np.squeeze(chain[-1]).shape:
+                if np.shape(val) != () and \
+                   np.squeeze(val).shape != np.squeeze(positions).shape:
                     msg = (f"Value shape {np.squeeze(val).shape} does not match shape "
-                           f"{np.squeeze(chain[-1]).shape} of the destination")
+                           f"{np.squeeze(positions).shape} of the destination")
             else:
                 try:
                     arr[:] = val
@@ -3750,20 +3754,10 @@ class AllConnGraph(nx.DiGraph):
         if msg:
             raise ValueError(f"Failed to set value of '{node[1]}': {msg}.")
 
-        last = chain[-1]
-        if (isinstance(last, np.ndarray) and last.ndim == 0) or np.isscalar(last):
-            if isinstance(val, np.ndarray) and val.size == 1:
-                val = val[0]
-            chain[-1] = val
-        else:
-            last[:] = val
-
-        for i in range(len(chain) - 2, -1, -1):
-            sub = chain[i + 1]
-            prev = chain[i]
-            idx = indices_list[i]
-            if sub.base is not prev:
-                idx.indexed_val_set(prev, sub)
+        val = np.asarray(val)
+        if val.ndim > 0 and val.size == np.size(positions):
+            val = val.reshape(np.shape(positions))
+        arr.flat[np.ravel(positions)] = np.broadcast_to(val, np.shape(positions)).ravel()
 
     def get_src_index_array(self, abs_in):
         """
